@@ -643,7 +643,122 @@ impl<'r> PG<'r> {
     }
 }
 
+/// Upper bounds (evaluation steps, size of the resulting collection) for a generated program, with
+/// every collection-typed variable assumed to hold `var_len` elements. Keeps runaway workloads
+/// (nested macros over long lists whose bodies concatenate) out of the batch: those only measure
+/// the allocator. Function calls with one or two arguments count twice (the interpreter evaluates
+/// their first argument twice today).
+pub fn estimate(g: &G, var_len: u64) -> (u64, u64) {
+    const CAP: u64 = 1 << 40;
+    let add = |a: u64, b: u64| a.saturating_add(b).min(CAP);
+    let mul = |a: u64, b: u64| a.saturating_mul(b).min(CAP);
+    match g {
+        G::Lit(_) => (1, 1),
+        G::Var(_) => (1, var_len),
+        G::Bin(op, l, r) => {
+            let (cl, sl) = estimate(l, var_len);
+            let (cr, sr) = estimate(r, var_len);
+            let size = if op == "+" { add(sl, sr) } else { 1 };
+            (add(add(cl, cr), 1 + size / 8), size)
+        }
+        G::Un(_, e) => {
+            let (c, _) = estimate(e, var_len);
+            (add(c, 1), 1)
+        }
+        G::Cond(c, a, b) => {
+            let (cc, _) = estimate(c, var_len);
+            let (ca, sa) = estimate(a, var_len);
+            let (cb, sb) = estimate(b, var_len);
+            (add(add(cc, ca.max(cb)), 1), sa.max(sb))
+        }
+        G::Call(name, recv, args) => {
+            let mut cost = 1u64;
+            let mut size = 1u64;
+            if let Some(r) = recv {
+                let (c, s) = estimate(r, var_len);
+                cost = add(cost, c);
+                size = size.max(s);
+            }
+            let mut args_cost = 0u64;
+            for a in args {
+                let (c, s) = estimate(a, var_len);
+                args_cost = add(args_cost, c);
+                size = size.max(s);
+            }
+            let factor = if args.len() == 1 || args.len() == 2 { 2 } else { 1 };
+            cost = add(cost, mul(args_cost, factor));
+            let out = if matches!(name.as_str(), "y" | "yc" | "log" | "boom" | "boomc" | "pick") { size.max(var_len) } else { 1 };
+            (cost, out)
+        }
+        G::List(xs) => {
+            let mut cost = 1u64;
+            for x in xs {
+                cost = add(cost, estimate(x, var_len).0);
+            }
+            (cost, xs.len() as u64)
+        }
+        G::Map(es) => {
+            let mut cost = 1u64;
+            for (k, v) in es {
+                cost = add(cost, add(estimate(k, var_len).0, estimate(v, var_len).0));
+            }
+            (cost, es.len() as u64)
+        }
+        G::Index(e, i) => {
+            let (ce, se) = estimate(e, var_len);
+            let (ci, _) = estimate(i, var_len);
+            // an element of a list of lists can itself be a list
+            (add(add(ce, ci), 1), se.min(var_len).max(1))
+        }
+        G::Select(e, _) | G::Has(e, _) => {
+            let (c, s) = estimate(e, var_len);
+            (add(c, 1), s.min(var_len).max(1))
+        }
+        G::Macro(_, range, _, args) => {
+            let (cr, sr) = estimate(range, var_len);
+            let mut body_cost = 1u64;
+            let mut body_size = 1u64;
+            for a in args {
+                let (c, s) = estimate(a, var_len);
+                body_cost = add(body_cost, c);
+                body_size = body_size.max(s);
+            }
+            // per element: the body, plus the accumulator copy `@result + [x]` (quadratic today)
+            let per_elem = add(body_cost, 2 + sr / 8);
+            (add(cr, mul(sr.max(1), per_elem)), mul(sr.max(1), 1).max(body_size))
+        }
+    }
+}
+
+pub const MAX_PROGRAM_COST: u64 = 40_000;
+pub const MAX_PROGRAM_SIZE: u64 = 1_500;
+
 pub fn gen_program(r: &mut Rng, root_names: &[(String, Ty)], depth: u32, stub_rate: u64, ill_typed_rate: u64) -> ProgramSpec {
+    gen_program_bounded(r, root_names, depth, stub_rate, ill_typed_rate, 8)
+}
+
+/// Generates programs until one is within the cost bounds for collections of `var_len` elements,
+/// lowering the depth on every rejection.
+pub fn gen_program_bounded(r: &mut Rng, root_names: &[(String, Ty)], depth: u32, stub_rate: u64, ill_typed_rate: u64, var_len: u64) -> ProgramSpec {
+    let mut d = depth;
+    for _ in 0..12 {
+        let p = gen_program_once(r, root_names, d, stub_rate, ill_typed_rate);
+        let (cost, size) = estimate(p.tree.as_ref().expect("generated tree"), var_len);
+        if cost <= MAX_PROGRAM_COST && size <= MAX_PROGRAM_SIZE {
+            return p;
+        }
+        d = d.saturating_sub(1).max(1);
+    }
+    let tree = G::Bin("+".into(), Box::new(G::Var("l".into())), Box::new(G::List(vec![G::Lit("1".into())])));
+    ProgramSpec {
+        src: tree.render(),
+        tree: Some(tree),
+        order_sensitive: false,
+        ast: None,
+    }
+}
+
+fn gen_program_once(r: &mut Rng, root_names: &[(String, Ty)], depth: u32, stub_rate: u64, ill_typed_rate: u64) -> ProgramSpec {
     let mut pg = PG {
         r,
         env: root_names.to_vec(),
@@ -775,10 +890,14 @@ pub fn gen_workload(run_seed: u64, engine: Engine, lim: &Limits, faults: bool) -
             }
         }
     }
+    // Scope definitions may bind any pool name to a freshly generated value, so the bound on the
+    // length of collection variables is the generator's own maximum (long lists reach 70) whenever
+    // long values are possible at all; programs are generated against that bound.
+    let var_len = 70u64;
     let mut programs = vec![];
     for _ in 0..n_programs {
         let depth = r.range(1, lim.max_prog_depth as i64) as u32;
-        programs.push(gen_program(&mut r, &env, depth, stub_rate, ill));
+        programs.push(gen_program_bounded(&mut r, &env, depth, stub_rate, ill, var_len));
     }
 
     let mut threads = vec![];
